@@ -64,6 +64,7 @@ _LEAF = {
     "os": P(opt("str")),
     "e": P(("enum", "Color"), default=E("Color", "RED")),
     "e2": P(opt(("enum", "Shade"))),
+    "od": P(opt("int"), default=7),
     "m": P("int", default=0, ignored=True),
     "o": P("str", default="opt", ignored=True),
     "p": P(opt("path"), ignored=True),
